@@ -276,6 +276,16 @@ MUST_REJECT = [
     "void {n}(int a,)", "void {n}(int a = )", "void {n}(int a, int a)",
 ]
 
+# an invalid declaration placed after a valid one that carries the same attribute text (a check that remembers
+# what it has already validated must still look at the second function's own arguments)
+TWINS = [
+    ("void ok{n}(int *values +rank(1), int n +implied(size(values)))", "void {n}(int *other +rank(1), int n +implied(size(values)))"),
+    ("void ok{n}(int *a +rank(1), int n +implied(size(a)))", "void {n}(double x, int n +implied(size(a)))"),
+    ("void ok{n}(const char *s, int n +implied(len(s)))", "void {n}(int *s2 +rank(1), int n +implied(len(s)))"),
+    ("void ok{n}(int *a +rank(2), int n +implied(size(a,2)))", "void {n}(int *b +rank(2), int n +implied(size(a,2)))"),
+    ("void ok{n}(int *a +rank(1), int n +implied(size(a)))", "void {n}(int *a +rank(1), int n +implied(size(a,1,1)))"),
+]
+
 YAML_FUZZ_FIELDS = ["library", "cxx_header", "namespace", "language", "options", "format", "declarations", "typemap",
                     "splicer", "splicer_code", "patterns", "copyright", "setup"]
 WRONG_KINDS = [None, 3, "text", ["a", "b"], {"k": "v"}, True, [{"decl": 3}], [3], {"decl": "x"}]
@@ -400,6 +410,15 @@ def main(rec):
         sp["what"] = decl
         sp["must_reject"] = t
         jobs.append((sp, False))
+    for i, (okd, bad) in enumerate(TWINS):
+        for order in ("valid-first", "invalid-first"):
+            ds = [{"decl": okd.replace("{n}", "tw%d" % i)}, {"decl": bad.replace("{n}", "tw%d" % i)}]
+            if order == "invalid-first":
+                ds.reverse()
+            sp = gen.spec_for(pipeline_case("twin", ds), "twin:%d:%s" % (i, order))
+            sp["what"] = "%s ; %s" % (ds[0]["decl"], ds[1]["decl"])
+            sp["must_reject"] = "after-valid-twin:" + bad if order == "valid-first" else bad
+            jobs.append((sp, False))
     # YAML structure fuzz
     base = pipeline_case("yfuzz", [{"decl": "int f1(int a)"}, {"decl": "void f2(double *x +intent(out))"}])
     for f in YAML_FUZZ_FIELDS:
